@@ -308,7 +308,36 @@ func prReplay(c *prCase, focus string) Verdict {
 		}
 		results[i] = r
 	}
+	// every third behaviour goes through ONE Result that is rewritten in place from one stream
+	// element to the next, as a reader does (same backing arrays; a value of the same length as its
+	// predecessor lands on the same bytes); keys keep only what they copied
+	var live *benchfmt.Result
+	if c.ID%3 == 1 {
+		live = &benchfmt.Result{}
+	}
 	for i, r := range results {
+		if live != nil {
+			same := len(live.Config) == len(r.Config)
+			for j := 0; same && j < len(r.Config); j++ {
+				same = live.Config[j].Key == r.Config[j].Key
+			}
+			if same {
+				for j := range r.Config {
+					live.Config[j].Value = append(live.Config[j].Value[:0], r.Config[j].Value...)
+					live.Config[j].File = r.Config[j].File
+				}
+			} else {
+				// another key set: a Result's key index is private, so start a new one
+				live = &benchfmt.Result{Name: live.Name, Values: live.Values}
+				for _, cf := range r.Config {
+					live.Config = append(live.Config, benchfmt.Config{Key: cf.Key, Value: append([]byte(nil), cf.Value...), File: cf.File})
+				}
+			}
+			live.Name = append(live.Name[:0], r.Name...)
+			live.Iters = r.Iters
+			live.Values = append(live.Values[:0], r.Values...)
+			r = live
+		}
 		for pi, p := range c.Proj {
 			if filters[pi] != nil {
 				m, err := filters[pi].Match(r)
